@@ -28,7 +28,9 @@ type c07Case struct {
 	// maxnodes-at-count (fresh; max_nodes equals the number of registered nodes, so that room appears
 	// only through the force-tainted nodes removed earlier in the scan) | big-tainted / small-tainted
 	// (fresh; the tainted nodes are twice / half the size of the untainted ones: an untainted node is
-	// one node, whatever its size)
+	// one node, whatever its size) | cordoned-tainted (fresh; one more node, the newest of all, carries the
+	// escalator taint and is cordoned: it is out of the picture) | maxage (fresh; max_node_age 20m30s, so the
+	// older tainted nodes are over age: they are reused all the same)
 	Taint string
 }
 
@@ -74,6 +76,8 @@ func c07Build(p c07Case) *h.Scenario {
 		g.Opts.TaintEffect = v1.TaintEffectPreferNoSchedule
 	case "maxnodes-at-count":
 		g.Opts.MaxNodes = p.U + p.T + p.F
+	case "maxage":
+		g.Opts.MaxNodeAge = "20m30s"
 	}
 	return &h.Scenario{
 		Name:             p.name(),
@@ -146,6 +150,9 @@ func c07Build(p c07Case) *h.Scenario {
 				}
 				hh.W.AddNode(a, o)
 			}
+			if p.Taint == "cordoned-tainted" {
+				hh.W.AddNode(a, sim.NodeOpt{Age: 1 * Q, TaintAge: dp(1 * Q), Cordoned: true})
+			}
 			if p.Taint == "busy-old" {
 				var oldest *v1.Node
 				for _, n := range hh.W.Nodes {
@@ -199,7 +206,8 @@ func c07Cases(tier string) []c07Case {
 											out = append(out, c07Case{u, t, f, pat, ord, mode, n, fleet, tight, "expired"}, c07Case{u, t, f, pat, ord, mode, n, fleet, tight, "annotated"},
 												c07Case{u, t, f, pat, ord, mode, n, fleet, tight, "noexecute"}, c07Case{u, t, f, pat, ord, mode, n, fleet, tight, "prefer"},
 												c07Case{u, t, f, pat, ord, mode, n, fleet, tight, "busy-old"}, c07Case{u, t, f, pat, ord, mode, n, fleet, tight, "maxnodes-at-count"},
-												c07Case{u, t, f, pat, ord, mode, n, fleet, tight, "big-tainted"}, c07Case{u, t, f, pat, ord, mode, n, fleet, tight, "small-tainted"})
+												c07Case{u, t, f, pat, ord, mode, n, fleet, tight, "big-tainted"}, c07Case{u, t, f, pat, ord, mode, n, fleet, tight, "small-tainted"},
+												c07Case{u, t, f, pat, ord, mode, n, fleet, tight, "cordoned-tainted"}, c07Case{u, t, f, pat, ord, mode, n, fleet, tight, "maxage"})
 										}
 									}
 								}
